@@ -362,7 +362,8 @@ def TBoundedUnsignedInteger(num_bits, type_name):
         __type_name__ = type_name
 
         class Attributes(UnsignedInteger.Attributes):
-            max_str_len = math.ceil(math.log(2**num_bits, 10))
+            # one more than the digit count: XSD allows an explicit '+' sign
+            max_str_len = math.ceil(math.log(2**num_bits, 10)) + 1
             min_bound = _min_b
             max_bound = _max_b
 
